@@ -42,8 +42,8 @@ type vSnap struct {
 	Orders map[string]mtypes.Order
 	Bids   map[string]mtypes.Bid
 	Leases map[string]mtypes.Lease
-	Provs  map[string]ptypes.Provider // bech32 owner
-	Audits map[string]atypes.Provider // "owner|auditor"
+	Provs  map[string]ptypes.Provider    // bech32 owner
+	Audits map[string]atypes.Provider    // "owner|auditor"
 	Certs  map[string]ctypes.Certificate // hex of raw key
 
 	Bank        map[string]sdk.Int // bech32 -> uakt
@@ -71,18 +71,18 @@ func vBidKey(id mtypes.BidID) string {
 func (c *vChain) snapshot() *vSnap {
 	ctx := c.ctx()
 	s := &vSnap{
-		Height: c.height,
-		Raw:    map[string][]vKV{},
-		Accts:  map[string]etypes.Account{},
-		Pays:   map[string]etypes.Payment{},
-		Deps:   map[string]dtypes.Deployment{},
-		Groups: map[string]dtypes.Group{},
-		Orders: map[string]mtypes.Order{},
-		Bids:   map[string]mtypes.Bid{},
-		Leases: map[string]mtypes.Lease{},
-		Provs:  map[string]ptypes.Provider{},
-		Audits: map[string]atypes.Provider{},
-		Certs:  map[string]ctypes.Certificate{},
+		Height:    c.height,
+		Raw:       map[string][]vKV{},
+		Accts:     map[string]etypes.Account{},
+		Pays:      map[string]etypes.Payment{},
+		Deps:      map[string]dtypes.Deployment{},
+		Groups:    map[string]dtypes.Group{},
+		Orders:    map[string]mtypes.Order{},
+		Bids:      map[string]mtypes.Bid{},
+		Leases:    map[string]mtypes.Lease{},
+		Provs:     map[string]ptypes.Provider{},
+		Audits:    map[string]atypes.Provider{},
+		Certs:     map[string]ctypes.Certificate{},
 		Bank:      map[string]sdk.Int{},
 		BankOther: map[string]sdk.Int{},
 	}
